@@ -111,8 +111,15 @@ def pitch_keys(rng, scale_p=0.45, classes=True):
         ev['degree'] = _numv(rng, list(range(-14, 22)), 0.2)
         if classes and rng.random() < 0.12:     # accidentals: x.1 sharp, x.9 flat
             ev['degree'] = ev['degree'] + rng.choice([0.1, -0.1, 0.2, -0.2])
+        elif classes and rng.random() < 0.08:
+            # exact halves (ties of the rounding, both parities, negative):
+            # SimpleNumber:round takes the upper degree, accidental -5
+            ev['degree'] = ev['degree'] + 0.5
         if rng.random() < 0.4:
             ev['mtranspose'] = _numv(rng, list(range(-7, 8)), 0.2)
+            if classes and ev['degree'] == int(ev['degree']) \
+                    and rng.random() < 0.1:
+                ev['mtranspose'] = ev['mtranspose'] + 0.5   # the half by mtranspose
     elif src == 'note':
         ev['note'] = _numv(rng, [-12, -5, -1, 0, 1, 2, 3.5, 7, 11, 12, 14.25, 24])
         if rng.random() < 0.2:
@@ -421,7 +428,8 @@ def pbind_spec(rng, insts, tags, offgrid=False, rests=True, timing=True,
         if src == 'degree':
             fr = rng.random() < 0.15
             m['degree'] = _column(rng, n, list(range(-7, 15)) + (
-                [1.1, 3.9, -2.1, 6.2] if fr else []), 0.2, rp)
+                [1.1, 3.9, -2.1, 6.2, 0.5, 2.5, 3.5, -1.5, -2.5] if fr else []),
+                0.2, rp)
             if not fr and rng.random() < 0.2:
                 m['ctranspose'] = _column(rng, n, [-12, 0.5, 7], 0.5)
             if rng.random() < 0.3:
@@ -605,12 +613,62 @@ def reuse_case(rng, insts, tags):
     return case
 
 
+def artic_case(rng, insts, tags):
+    """Pmono(articulate=True) (PmonoArtic): slurs while sustain >= delta,
+    re-articulates after a note with sustain < delta.  Dyadic durations and
+    stretch with legato 1.0 (or an explicit sustain equal to dur * stretch)
+    give exact ties sustain == delta; legato below and above 1 the two other
+    cases.  No rests."""
+    pb = pbind_spec(rng, insts, tags, False, rests=False, mono=True)
+    m = pb[1]
+    n = len(me.values(m['tag']))
+    if n < 3:
+        more = rng.randint(3, 7)
+        m['tag'] = _as_pattern(rng, [next(tags) for _ in range(more)])
+        n = more
+    for k in ('delta', 'sustain', 'legato'):
+        m.pop(k, None)
+    dcol = [rng.choice([0.125, 0.25, 0.5, 0.75, 1, 1.5]) for _ in range(n)]
+    m['dur'] = _as_pattern(rng, dcol)
+    scol = None
+    if 'stretch' in m:
+        m['stretch'] = rng.choice([0.5, 1, 2, 1.5])
+    st = m.get('stretch', 1.0)
+    if rng.random() < 0.6:
+        m['legato'] = _as_pattern(rng, [rng.choice([1.0, 1.0, 1, 0.5, 1.5, 2,
+                                                    0.75, 0.25, 1.25])
+                                        for _ in range(n)])
+    else:
+        # explicit sustain: equal to, below or above dur * stretch
+        m['sustain'] = _as_pattern(rng, [
+            d * st * rng.choice([1, 1, 0.5, 2, 0.25]) for d in dcol])
+    leaf = ['pmono_artic', rng.choice(insts)['name'], m]
+    r = rng.random()
+    if r < 0.5:
+        pat = leaf
+    elif r < 0.7:
+        pat = ['ppar', [leaf, pbind_spec(rng, insts, tags, False)]]
+    elif r < 0.85:
+        pat = ['pdelta', rng.choice([0.25, 1]), leaf]
+    else:
+        total = me.timeline(leaf).total
+        pat = ['pdur', rng.randint(1, max(1, int(total * 16))) / 16.0, leaf]
+    return {'pattern': pat, 'special': 'pmono-artic', 'offgrid': False,
+            'latency': rng.choice([0, 0.05, 0.25]),
+            'where': rng.choice(['main', 'routine-system', 'routine-tempo']),
+            'clock': rng.choice(['default', 'system', 'tempo']),
+            'start': rng.choice([0.25, 1, 2.5]), 'proto': None}
+
+
 def special_case(rng, insts, tags):
     """Event forms that end or suspend a stream: the event type 'rest', a None
     delta (ends the player after the event), an infinite dur (the event is
     played, the player is never due again; no gate-off unless sustain is
     given)."""
-    form = rng.choice(['type-rest', 'type-rest', 'delta-none', 'dur-inf'])
+    form = rng.choice(['type-rest', 'type-rest', 'delta-none', 'dur-inf',
+                       'pmono-artic', 'pmono-artic', 'pmono-artic'])
+    if form == 'pmono-artic':
+        return artic_case(rng, insts, tags)
     pb = pbind_spec(rng, insts, tags, False, rests=False)
     m = pb[1]
     n = len(me.values(m['tag']))
